@@ -157,3 +157,38 @@ int gsl_blas_ddot(const gsl_vector* X, const gsl_vector* Y, double* r){
 double gsl_sf_fact(const unsigned int n){ double r=1.0; for(unsigned int i=2;i<=n;i++) r*=(double)i; return r; }
 double gsl_sf_choose(unsigned int n, unsigned int m){ if(m>n) __verif_gsl_error(20);
   double r=1.0; if(m*2>n) m=n-m; for(unsigned int k=1;k<=m;k++){ r=r*(double)(n-m+k)/(double)k; } return r; }
+
+/* ---------------------------------------------------------------- LU (complex, partial pivoting): documented semantics of
+   gsl_linalg_complex_LU_decomp / _LU_solve; used only where the executor runs matrix_exponential concretely */
+#include <gsl/gsl_linalg.h>
+static double cabs2_(double r, double i){ return r*r+i*i; }
+int gsl_linalg_complex_LU_decomp(gsl_matrix_complex* A, gsl_permutation* p, int* signum){
+  size_t n=A->size1; if(A->size2!=n || p->size!=n) __verif_gsl_error(30);
+  *signum=1; for(size_t i=0;i<n;i++) p->data[i]=i;
+  for(size_t j=0;j+1<n || j<n;j++){
+    if(j>=n) break;
+    size_t piv=j; double best=cabs2_(A->data[2*(j*A->tda+j)],A->data[2*(j*A->tda+j)+1]);
+    for(size_t i=j+1;i<n;i++){ double a=cabs2_(A->data[2*(i*A->tda+j)],A->data[2*(i*A->tda+j)+1]); if(a>best){ best=a; piv=i; } }
+    if(piv!=j){ for(size_t k=0;k<n;k++){ double tr=A->data[2*(j*A->tda+k)], ti=A->data[2*(j*A->tda+k)+1];
+        A->data[2*(j*A->tda+k)]=A->data[2*(piv*A->tda+k)]; A->data[2*(j*A->tda+k)+1]=A->data[2*(piv*A->tda+k)+1];
+        A->data[2*(piv*A->tda+k)]=tr; A->data[2*(piv*A->tda+k)+1]=ti; }
+      size_t t=p->data[j]; p->data[j]=p->data[piv]; p->data[piv]=t; *signum=-*signum; }
+    double pr=A->data[2*(j*A->tda+j)], pi=A->data[2*(j*A->tda+j)+1]; double pd=pr*pr+pi*pi;
+    if(pd!=0.0){ for(size_t i=j+1;i<n;i++){ double ar=A->data[2*(i*A->tda+j)], ai=A->data[2*(i*A->tda+j)+1];
+        double lr=(ar*pr+ai*pi)/pd, li=(ai*pr-ar*pi)/pd; A->data[2*(i*A->tda+j)]=lr; A->data[2*(i*A->tda+j)+1]=li;
+        for(size_t k=j+1;k<n;k++){ double ur=A->data[2*(j*A->tda+k)], ui=A->data[2*(j*A->tda+k)+1];
+          A->data[2*(i*A->tda+k)]-=lr*ur-li*ui; A->data[2*(i*A->tda+k)+1]-=lr*ui+li*ur; } } }
+  }
+  return 0; }
+int gsl_linalg_complex_LU_solve(const gsl_matrix_complex* LU, const gsl_permutation* p, const gsl_vector_complex* b, gsl_vector_complex* x){
+  size_t n=LU->size1; if(b->size!=n || x->size!=n) __verif_gsl_error(31);
+  for(size_t i=0;i<n;i++){ size_t s=p->data[i]; x->data[2*i*x->stride]=b->data[2*s*b->stride]; x->data[2*i*x->stride+1]=b->data[2*s*b->stride+1]; }
+  for(size_t i=0;i<n;i++) for(size_t k=0;k<i;k++){ double lr=LU->data[2*(i*LU->tda+k)], li=LU->data[2*(i*LU->tda+k)+1];
+      double xr=x->data[2*k*x->stride], xi=x->data[2*k*x->stride+1]; x->data[2*i*x->stride]-=lr*xr-li*xi; x->data[2*i*x->stride+1]-=lr*xi+li*xr; }
+  for(size_t ii=n;ii>0;ii--){ size_t i=ii-1;
+    for(size_t k=i+1;k<n;k++){ double ur=LU->data[2*(i*LU->tda+k)], ui=LU->data[2*(i*LU->tda+k)+1];
+      double xr=x->data[2*k*x->stride], xi=x->data[2*k*x->stride+1]; x->data[2*i*x->stride]-=ur*xr-ui*xi; x->data[2*i*x->stride+1]-=ur*xi+ui*xr; }
+    double dr=LU->data[2*(i*LU->tda+i)], di=LU->data[2*(i*LU->tda+i)+1], dd=dr*dr+di*di;
+    double xr=x->data[2*i*x->stride], xi=x->data[2*i*x->stride+1];
+    x->data[2*i*x->stride]=(xr*dr+xi*di)/dd; x->data[2*i*x->stride+1]=(xi*dr-xr*di)/dd; }
+  return 0; }
